@@ -195,6 +195,13 @@ def run(ctx):
     rule_type_names(ctx)
     tables.rule_id_key(ctx, "R11.5a")
     tables.rule_meta_ids(ctx, "R11.5")
+    # R11.6: `$ref: "#"` inside the metaschema must reach the metaschema in hand: the referrer is stored last under its base URI
+    from .c15 import rule_seeding
+    rule_seeding(ctx, "R11.6")
+    # R11.7: check_schema's verdict is a validation of the candidate against the metaschema; it is "exactly the metaschema"
+    # only if keyword code keeps no memo between sub-validations (a remembered "already passed" is keyed by ==, not JSON equality)
+    from .c05 import rule_no_shared_state
+    rule_no_shared_state(ctx, "R11.7")
     try:
         from .c03 import rule_metaschema_shapes
     except ImportError:
